@@ -114,7 +114,7 @@ theorem acct_step_instr (env : Env) (henv : EnvOk env) {s : State} (h : Inv s) (
     | not => exact good_handleNot h pid
     | spawn => exact good_handleSpawn h pid hpre
     | send => exact good_handleSend h pid hpre.1 hpre.2
-    | self => exact good_handleSelf h pid
+    | self sw => exact good_handleSelf h pid sw
     | processRef a b => exact good_handleProcessRef h pid a b
   exact ⟨key.inv, key.stable, key.transit⟩
 
